@@ -590,6 +590,13 @@ class MatchProxy:
         self.log[(self.pid, nm)] = r
         return r
 
+    def fullmatch(self, name):
+        # (the walker applies its segment matchers with fullmatch since repo fix 57bb6b0)
+        r = self.pattern.fullmatch(name) is not None
+        nm = name.decode('latin-1') if isinstance(name, bytes) else name
+        self.log[(self.pid, nm)] = r
+        return r
+
 
 class ExclProxy:
     def __init__(self, patterns, log):
